@@ -620,7 +620,515 @@ pub fn run(cfg: &Cfg) -> Report {
       }
     }
   }
+  // ------------------------------------------------------------------ 4. non-canonical lexical forms
+  lexical_family(&mut rep, &mut model, &mut rng, thorough);
+
   rep.exhaustive = thorough;
   rep.model_requests = model.requests;
   rep
+}
+
+// ------------------------------------------------------------------------------------------
+// family `lexical`: numbers written in every lexical form, wherever text becomes a number
+// ------------------------------------------------------------------------------------------
+
+/// A written number: the text and, known from the way it was written (never from reading it back), the exact
+/// rational it denotes: `(-1)^neg * digits * 10^exp`.
+#[derive(Debug, Clone)]
+struct Lex {
+  text: String,
+  neg: bool,
+  /// all mantissa digits as written (integer digits then fraction digits)
+  digits: String,
+  exp: i64,
+  sign: &'static str,
+  int_len: usize,
+  frac_len: usize,
+  point: bool,
+  exponent: bool,
+  lead_ws: bool,
+  trail_ws: bool,
+}
+
+impl Lex {
+  fn whitespace(&self) -> bool {
+    self.lead_ws || self.trail_ws
+  }
+  /// `[+-]?[0-9]+`
+  fn in_xsd_integer(&self) -> bool {
+    !self.whitespace() && !self.point && !self.exponent && self.int_len > 0
+  }
+  /// `[+-]?([0-9]+(\.[0-9]*)?|\.[0-9]+)`
+  fn in_xsd_decimal(&self) -> bool {
+    !self.whitespace() && !self.exponent
+  }
+  /// `[+-]?([0-9]+(\.[0-9]*)?|\.[0-9]+)([eE][+-]?[0-9]+)?`
+  fn in_xsd_double(&self) -> bool {
+    !self.whitespace()
+  }
+  /// the grammar of a FEEL numeric literal (an optional minus in front): `-?([0-9]+(\.[0-9]+)?|\.[0-9]+)`
+  fn in_feel(&self) -> bool {
+    !self.whitespace() && !self.exponent && self.sign != "+" && (!self.point || self.frac_len > 0)
+  }
+  /// the form of the mantissa and whether there is an exponent: `d`, `d.`, `.d`, `d.d`, each with or without `E`
+  fn core_shape(&self) -> String {
+    format!(
+      "{}{}",
+      match (self.int_len > 0, self.point, self.frac_len > 0) {
+        (true, false, _) => "d",
+        (true, true, true) => "d.d",
+        (true, true, false) => "d.",
+        (false, _, _) => ".d",
+      },
+      if self.exponent { "E" } else { "" }
+    )
+  }
+  fn shape(&self) -> String {
+    format!(
+      "{}{}{}{}{}",
+      match self.sign {
+        "+" => "+",
+        _ => "",
+      },
+      match (self.int_len > 0, self.point, self.frac_len > 0) {
+        (true, false, _) => "d",
+        (true, true, true) => "d.d",
+        (true, true, false) => "d.",
+        (false, _, _) => ".d",
+      },
+      if self.exponent { "E" } else { "" },
+      if self.digits.len() > 1 && self.digits.starts_with('0') && self.int_len > 1 { " leading zeros" } else { "" },
+      if self.whitespace() { " whitespace" } else { "" }
+    )
+  }
+}
+
+/// The value `digits * 10^exp` in normal form: no leading and no trailing zeros in the coefficient (`"0", 0` for zero),
+/// rounded half-even to 34 significant digits when it has more. `None`: outside the range this family covers (the
+/// result would not be a normal decimal128 number).
+fn normal_value(digits: &str, exp: i64) -> Option<(String, i64)> {
+  let mut c: Vec<u8> = digits.trim_start_matches('0').bytes().map(|b| b - b'0').collect();
+  let mut e = exp;
+  if c.is_empty() {
+    return Some(("0".to_string(), 0));
+  }
+  if c.len() > 34 {
+    let dropped = c.len() - 34;
+    let rest: Vec<u8> = c.split_off(34);
+    e += dropped as i64;
+    let half = rest[0] > 5 || (rest[0] == 5 && rest[1..].iter().any(|d| *d != 0));
+    let tie = rest[0] == 5 && rest[1..].iter().all(|d| *d == 0);
+    if half || (tie && c[33] % 2 == 1) {
+      let mut i = 34;
+      loop {
+        if i == 0 {
+          c.insert(0, 1);
+          c.pop();
+          e += 1;
+          break;
+        }
+        i -= 1;
+        if c[i] == 9 {
+          c[i] = 0;
+        } else {
+          c[i] += 1;
+          break;
+        }
+      }
+    }
+  }
+  while c.len() > 1 && *c.last().unwrap() == 0 {
+    c.pop();
+    e += 1;
+  }
+  let adjusted = e + c.len() as i64 - 1;
+  if !(-6143..=6144).contains(&adjusted) || e < -6176 {
+    return None;
+  }
+  Some((c.iter().map(|d| char::from(b'0' + d)).collect(), e))
+}
+
+/// What a plain text `-?digits(.digits)?` denotes, in the same normal form; `None` when the text has another shape.
+fn plain_denotes(text: &str) -> Option<(bool, String, i64)> {
+  let (neg, body) = match text.strip_prefix('-') {
+    Some(r) => (true, r),
+    None => (false, text),
+  };
+  let (ip, fp) = match body.find('.') {
+    Some(i) => (&body[..i], &body[i + 1..]),
+    None => (body, ""),
+  };
+  if ip.is_empty() || (body.contains('.') && fp.is_empty()) || !ip.bytes().all(|b| b.is_ascii_digit()) || !fp.bytes().all(|b| b.is_ascii_digit()) {
+    return None;
+  }
+  let mut c = format!("{}{}", ip, fp).trim_start_matches('0').to_string();
+  let mut e = -(fp.len() as i64);
+  if c.is_empty() {
+    return Some((neg, "0".to_string(), 0));
+  }
+  while c.len() > 1 && c.ends_with('0') {
+    c.pop();
+    e += 1;
+  }
+  Some((neg, c, e))
+}
+
+fn gen_lex(rng: &mut Rng) -> Lex {
+  // the mantissa as written
+  let wide = rng.chance(1, 8);
+  let short = rng.chance(1, 2);
+  let total = if wide { 35 + rng.below(8) as usize } else { 1 + rng.below(if short { 8 } else { 34 }) as usize };
+  let mut sig = String::new();
+  for i in 0..total {
+    let d = if i == 0 {
+      1 + rng.below(9)
+    } else {
+      match rng.below(8) {
+        0 => 0,
+        1 => 9,
+        2 => 5,
+        _ => rng.below(10),
+      }
+    };
+    sig.push(char::from(b'0' + d as u8));
+  }
+  if rng.chance(1, 20) {
+    sig = "0".to_string();
+  }
+  // ties and near-ties at the 34th digit for the long ones
+  if sig.len() > 34 && rng.chance(1, 2) {
+    let keep: String = sig[..34].to_string();
+    let tail_len = sig.len() - 34;
+    let tail = match rng.below(3) {
+      0 => format!("5{}", "0".repeat(tail_len - 1)),
+      1 => format!("4{}", "9".repeat(tail_len - 1)),
+      _ => format!("5{}1", "0".repeat(tail_len.saturating_sub(2))),
+    };
+    sig = format!("{}{}", keep, &tail[..tail_len.min(tail.len())]);
+  }
+  let lead_zeros = if rng.chance(1, 3) { 1 + rng.below(4) as usize } else { 0 };
+  let trail_zeros = if rng.chance(1, 3) { 1 + rng.below(4) as usize } else { 0 };
+  let written = format!("{}{}{}", "0".repeat(lead_zeros), sig, "0".repeat(trail_zeros));
+  // where the point goes: nowhere, after all digits, before all digits, inside
+  let (int_len, point) = match rng.below(6) {
+    0 | 1 => (written.len(), false),
+    2 => (written.len(), true),
+    3 => (0, true),
+    _ => (rng.below(written.len() as u64 + 1) as usize, true),
+  };
+  let frac_len = written.len() - int_len;
+  let sign = *rng.pick(&["", "", "-", "+"]);
+  let mut k: i64 = 0;
+  let mut exp_text = String::new();
+  let exponent = rng.chance(1, 3);
+  if exponent {
+    k = match rng.below(5) {
+      0 => 0,
+      1 => rng.range(-6000, 6000),
+      _ => rng.range(-40, 40),
+    };
+    // stay inside the normal range
+    let adjusted = k + int_len as i64 + 8;
+    if adjusted > 6100 || adjusted - 60 < -6100 {
+      k = rng.range(-40, 40);
+    }
+    exp_text.push(*rng.pick(&['e', 'E']));
+    if k < 0 {
+      exp_text.push('-');
+    } else if rng.chance(1, 2) {
+      exp_text.push('+');
+    }
+    if rng.chance(1, 5) {
+      exp_text.push_str(&"0".repeat(1 + rng.below(3) as usize));
+    }
+    exp_text.push_str(&k.abs().to_string());
+  }
+  let ws = [" ", "\t", "\n", "  ", "\r\n"];
+  let lead_ws = rng.chance(1, 16);
+  let trail_ws = rng.chance(1, 16);
+  let mut text = String::new();
+  if lead_ws {
+    text.push_str(*rng.pick(&ws));
+  }
+  text.push_str(sign);
+  text.push_str(&written[..int_len]);
+  if point {
+    text.push('.');
+  }
+  text.push_str(&written[int_len..]);
+  text.push_str(&exp_text);
+  if trail_ws {
+    text.push_str(*rng.pick(&ws));
+  }
+  Lex { text, neg: sign == "-", digits: written, exp: k - frac_len as i64, sign, int_len, frac_len, point, exponent, lead_ws, trail_ws }
+}
+
+const LEX_SERVICE_BODY: &str = r##"
+  <businessKnowledgeModel name="E" id="_e"><variable name="E"/>
+    <encapsulatedLogic><formalParameter name="x"/><literalExpression><text>x</text></literalExpression></encapsulatedLogic>
+  </businessKnowledgeModel>"##;
+
+/// Judges one observation: `got` is `Ok(printed text)` or `Err(reason)` (rejected / null).
+fn lex_judge(rep: &mut Report, site: &str, l: &Lex, must_accept: bool, shown_input: &str, got: Result<String, String>) {
+  let want = normal_value(&l.digits, l.exp);
+  rep.hit(&format!("lexical:{}:{}", site, if got.is_ok() { "number" } else { "rejected" }));
+  match (got, want) {
+    (Ok(text), Some((wc, we))) => match plain_denotes(&text) {
+      Some((gneg, gc, ge)) => {
+        let zero = wc == "0";
+        if gc != wc || ge != we || (!zero && gneg != l.neg) {
+          let exact = l.digits.trim_start_matches('0').trim_end_matches('0').len() <= 34;
+          let sig = if exact {
+            format!("{}: a number written in a non-canonical lexical form does not evaluate to the value it denotes", site)
+          } else {
+            format!("{}: a number written with more than 34 significant digits is not rounded half-even to 34 digits", site)
+          };
+          rep.disagree(Kind::ImplVsSpec, "lexical", &sig, shown_input, &text, &format!("{}{}E{}", if l.neg && !zero { "-" } else { "" }, wc, we));
+        }
+      }
+      None => rep.disagree(Kind::ImplVsSpec, "lexical", &format!("{}: the number read from a text does not print as plain decimal text", site), shown_input, &text, "-?[0-9]+(\\.[0-9]+)?"),
+    },
+    (Ok(_), None) => {}
+    (Err(why), Some(_)) => {
+      if must_accept {
+        rep.disagree(
+          Kind::ImplVsSpec,
+          "lexical",
+          &format!("{}: a number written in a valid lexical form ({}{}) is rejected", site, if l.sign == "+" { "+" } else { "" }, l.core_shape()),
+          shown_input,
+          &why.chars().take(200).collect::<String>(),
+          "the number the text denotes",
+        );
+      }
+    }
+    (Err(_), None) => {}
+  }
+}
+
+fn lexical_family(rep: &mut Report, model: &mut Model, rng: &mut Rng, thorough: bool) {
+  let n = if thorough { 60_000 } else { 4_000 };
+  let mut cases: Vec<Lex> = vec![];
+  // every shape once with small digits (the forms the notes of the property name)
+  for (text, neg, digits, exp) in [
+    (".5", false, "5", -1),
+    ("-.25", true, "25", -2),
+    ("5.", false, "5", 0),
+    ("+5", false, "5", 0),
+    ("+.5", false, "5", -1),
+    ("007", false, "007", 0),
+    ("-007.500", true, "007500", -3),
+    ("1.50", false, "150", -2),
+    (".5E1", false, "5", 0),
+    ("5.E-1", false, "5", -1),
+    ("1e3", false, "1", 3),
+    ("1E+03", false, "1", 3),
+    ("00.00", false, "0000", -2),
+    ("-0", true, "0", 0),
+    ("+0.0E+5", false, "00", 4),
+  ] {
+    let int_len = text.trim_start_matches(['+', '-']).split(['.', 'e', 'E']).next().unwrap().len();
+    let point = text.contains('.');
+    let exponent = text.contains(['e', 'E']);
+    cases.push(Lex {
+      text: text.to_string(),
+      neg,
+      digits: digits.to_string(),
+      exp,
+      sign: if text.starts_with('+') { "+" } else if text.starts_with('-') { "-" } else { "" },
+      int_len,
+      frac_len: digits.len() - int_len,
+      point,
+      exponent,
+      lead_ws: false,
+      trail_ws: false,
+    });
+  }
+  for _ in 0..n {
+    cases.push(gen_lex(rng));
+  }
+  // the specification's own reading of every text (Lean `lexValue`), against the value known from the way the text
+  // was written: the two oracles must agree
+  let reqs: Vec<String> = cases.iter().map(|l| format!("(c07 lex {})", Sexp::str(&l.text))).collect();
+  let answers = model.ask_batch(&reqs);
+  for (l, ans) in cases.iter().zip(answers.iter()) {
+    let parsed = Sexp::parse(ans);
+    let items = parsed.as_ref().and_then(|s| s.as_list()).map(|x| x.to_vec()).unwrap_or_default();
+    if items.first().and_then(|x| x.as_atom()) != Some("lex") {
+      // a driver without the request: the harness's own reading stands alone
+      rep.hit("lexical:oracle:no lexValue in the driver");
+      continue;
+    }
+    let spec_reads = if items.len() == 4 { Some((items[1].as_atom() == Some("true"), items[2].as_atom().unwrap_or("").to_string(), items[3].as_atom().and_then(|x| x.parse::<i64>().ok()).unwrap_or(0))) } else { None };
+    let expected = if l.whitespace() { None } else { Some((l.neg, l.digits.trim_start_matches('0').to_string(), l.exp)) };
+    let same = match (&spec_reads, &expected) {
+      (Some((n1, c1, e1)), Some((n2, c2, e2))) => n1 == n2 && (c1 == c2 || (c1 == "0" && c2.is_empty())) && (e1 == e2 || c1 == "0"),
+      (None, None) => true,
+      _ => false,
+    };
+    rep.hit(if same { "lexical:oracle:agree" } else { "lexical:oracle:differ" });
+    if !same {
+      rep.disagree(Kind::ImplVsModel, "lexical", "the specification reader lexValue and the generator disagree about what a text denotes", &format!("{:?}", l.text), &format!("{:?}", spec_reads), &format!("{:?}", expected));
+    }
+  }
+
+  // ---- in-process sites
+  for l in &cases {
+    let shown = format!("{:?}", l.text);
+    rep.case(&format!("lexical {}", shown), l.shape() != "d" || l.digits.len() > 1);
+    rep.hit(&format!("lexical:shape:{}", l.shape()));
+    rep.hit(if l.digits.trim_start_matches('0').trim_end_matches('0').len() > 34 { "lexical:digits:>34" } else { "lexical:digits:<=34" });
+    // FromStr
+    match guarded(|| FeelNumber::from_str(&l.text).map(|n| n.to_string()).map_err(|e| e.to_string())) {
+      Ok(r) => lex_judge(rep, "FeelNumber::from_str", l, !l.whitespace(), &shown, r),
+      Err(p) => rep.disagree(Kind::ImplVsSpec, "lexical", "reading a number from text panics", &shown, &p, "Ok or Err"),
+    }
+    // typed input values
+    for (kind, conv, inside) in [
+      ("xsd:integer", Value::try_from_xsd_integer as fn(&str) -> dmntk_common::Result<Value>, l.in_xsd_integer()),
+      ("xsd:decimal", Value::try_from_xsd_decimal, l.in_xsd_decimal()),
+      ("xsd:double", Value::try_from_xsd_double, l.in_xsd_double()),
+    ] {
+      match guarded(|| match conv(&l.text) {
+        Ok(Value::Number(n)) => Ok(n.to_string()),
+        Ok(other) => Err(format!("not a number: {}", other)),
+        Err(e) => Err(e.to_string()),
+      }) {
+        Ok(r) => lex_judge(rep, &format!("typed input {}", kind), l, inside, &format!("{} {}", kind, shown), r),
+        Err(p) => rep.disagree(Kind::ImplVsSpec, "lexical", "reading a number from text panics", &format!("{} {}", kind, shown), &p, "Ok or Err"),
+      }
+    }
+    // number(from, grouping separator, decimal separator)
+    {
+      let s = Value::String(l.text.clone());
+      let r = guarded(|| feel_eval(&[("s", s)], "number(s, null, null)"));
+      let got = match r {
+        Ok(Ok(Value::Number(n))) => Ok(n.to_string()),
+        Ok(Ok(other)) => Err(format!("{}", other)),
+        Ok(Err(e)) => Err(format!("error: {}", e)),
+        Err(p) => {
+          rep.disagree(Kind::ImplVsSpec, "lexical", "number() panics", &shown, &p, "a number or null");
+          Err("panic".into())
+        }
+      };
+      lex_judge(rep, "number()", l, l.in_feel(), &format!("number({}, null, null)", shown), got);
+    }
+    // with separators: the integer digits grouped in threes, the decimal point written as the decimal separator
+    if l.in_feel() && l.int_len > 0 && rng.chance(1, 2) {
+      let (grp, dec) = *rng.pick(&[(",", "."), (" ", "."), (".", ","), (" ", ","), (",", ""), (" ", ""), ("", ","), ("", ".")]);
+      let unsigned = l.text.trim_start_matches('-');
+      let ip = &unsigned[..l.int_len];
+      let fp = if l.point { &unsigned[l.int_len + 1..] } else { "" };
+      let mut grouped = String::new();
+      for (i, ch) in ip.chars().enumerate() {
+        if i > 0 && (ip.len() - i) % 3 == 0 && !grp.is_empty() {
+          grouped.push_str(grp);
+        }
+        grouped.push(ch);
+      }
+      // a decimal point stays a point when no decimal separator is named — unless the point is the grouping separator
+      if !(l.point && dec.is_empty() && grp == ".") && !(l.point && dec.is_empty() && grp.is_empty()) {
+        let dec_written = if dec.is_empty() { "." } else { dec };
+        let text = format!("{}{}{}{}", if l.neg { "-" } else { "" }, grouped, if l.point { dec_written } else { "" }, fp);
+        let garg = if grp.is_empty() { Value::Null(None) } else { Value::String(grp.to_string()) };
+        let darg = if dec.is_empty() { Value::Null(None) } else { Value::String(dec.to_string()) };
+        let r = guarded(|| feel_eval(&[("s", Value::String(text.clone())), ("g", garg), ("d", darg)], "number(s, g, d)"));
+        let got = match r {
+          Ok(Ok(Value::Number(n))) => Ok(n.to_string()),
+          Ok(Ok(other)) => Err(format!("{}", other)),
+          Ok(Err(e)) => Err(format!("error: {}", e)),
+          Err(p) => Err(format!("panic: {}", p)),
+        };
+        lex_judge(rep, "number() with separators", l, true, &format!("number({:?}, {:?}, {:?})", text, grp, dec), got);
+      }
+    }
+    // FEEL literal (the sign is the unary minus), alone and inside a list
+    if l.in_feel() {
+      let expr = if rng.chance(1, 3) { format!("[{}][1]", l.text) } else { l.text.clone() };
+      let r = guarded(|| feel_eval(&[], &expr));
+      let got = match r {
+        Ok(Ok(Value::Number(n))) => Ok(n.to_string()),
+        Ok(Ok(other)) => Err(format!("{}", other)),
+        Ok(Err(e)) => Err(format!("error: {}", e)),
+        Err(p) => Err(format!("panic: {}", p)),
+      };
+      lex_judge(rep, "FEEL literal", l, true, &expr, got);
+    }
+  }
+
+  // ---- typed input through the service: POST /tck/evaluate with {"type": "xsd:…", "text": …}
+  let mut server = match crate::c18::Server::start() {
+    Ok(s) => s,
+    Err(e) => {
+      rep.notes.push(format!("lexical: the service did not start ({}): typed input through /tck/evaluate not exercised", e));
+      return;
+    }
+  };
+  let js = Some("application/json");
+  let xml = crate::c17::model_xml("https://verif/c07", "lex", LEX_SERVICE_BODY);
+  for (path, body) in [("/definitions/clear", String::new()), ("/definitions/add", json!({"content": base64::encode(xml)}).to_string()), ("/definitions/deploy", String::new())] {
+    match crate::c18::http(server.port, "POST", path, js, body.as_bytes()) {
+      Ok(a) if a.status == 200 && !String::from_utf8_lossy(&a.body).contains("\"errors\"") => {}
+      Ok(a) => {
+        rep.notes.push(format!("lexical: {} answered {} {}", path, a.status, String::from_utf8_lossy(&a.body)));
+        return;
+      }
+      Err(e) => {
+        rep.notes.push(format!("lexical: {} failed: {}", path, e));
+        return;
+      }
+    }
+  }
+  let n_http = if thorough { 20_000 } else { 900 };
+  let simple = |typ: &str, text: &str| json!({"simple": {"type": typ, "text": text, "isNil": false}, "components": null, "list": null});
+  let mut sent = 0u64;
+  // the first cases are the fixed shapes; then a sample of the generated ones
+  let picks: Vec<usize> = (0..cases.len()).filter(|i| *i < 15 || rng.chance(n_http as u64, cases.len() as u64)).collect();
+  for i in picks {
+    let l = &cases[i];
+    for (kind, inside) in [("xsd:integer", l.in_xsd_integer()), ("xsd:decimal", l.in_xsd_decimal()), ("xsd:double", l.in_xsd_double())] {
+      // outside the type's lexical space the service may refuse: one type per text is enough there
+      if !inside && kind != "xsd:double" {
+        continue;
+      }
+      // alone, inside a list, inside a component
+      let (value, unwrap): (serde_json::Value, u8) = match rng.below(4) {
+        0 => (json!({"simple": null, "components": null, "list": {"items": [simple(kind, &l.text)], "isNil": false}}), 1),
+        1 => (json!({"simple": null, "list": null, "components": [{"name": "a", "value": simple(kind, &l.text), "isNil": false}]}), 2),
+        _ => (simple(kind, &l.text), 0),
+      };
+      let body = json!({"model": "lex", "invocable": "E", "input": [{"name": "x", "value": value}]}).to_string();
+      let shown = format!("POST /tck/evaluate {}", body);
+      let a = match crate::c18::http(server.port, "POST", "/tck/evaluate", js, body.as_bytes()) {
+        Ok(a) => a,
+        Err(e) => {
+          rep.disagree(Kind::ImplVsSpec, "lexical", "the service stopped answering", &shown, &e, "an answer");
+          return;
+        }
+      };
+      sent += 1;
+      let text = String::from_utf8_lossy(&a.body).to_string();
+      let got: Result<String, String> = match serde_json::from_str::<serde_json::Value>(&text) {
+        Ok(j) => {
+          let v = j.get("data").and_then(|d| d.get("value"));
+          let s = match (v, unwrap) {
+            (Some(v), 0) => v.get("simple").cloned(),
+            (Some(v), 1) => v.get("list").and_then(|x| x.get("items")).and_then(|x| x.get(0)).and_then(|x| x.get("simple")).cloned(),
+            (Some(v), _) => v.get("components").and_then(|x| x.get(0)).and_then(|x| x.get("value")).and_then(|x| x.get("simple")).cloned(),
+            (None, _) => None,
+          };
+          match s {
+            Some(s) if s.get("type").and_then(|t| t.as_str()) == Some("xsd:decimal") => s.get("text").and_then(|t| t.as_str()).map(|t| t.to_string()).ok_or_else(|| text.clone()),
+            _ => Err(text.clone()),
+          }
+        }
+        Err(_) => Err(text.clone()),
+      };
+      lex_judge(rep, &format!("service typed input {}", kind), l, inside, &shown, got);
+    }
+  }
+  if !server.alive() {
+    rep.disagree(Kind::ImplVsSpec, "lexical", "the service process ended during the run", "(lexical family)", "process ended", "a running service");
+  }
+  rep.extra.insert("lexical_texts".into(), json!(cases.len()));
+  rep.extra.insert("lexical_http_requests".into(), json!(sent));
 }
